@@ -23,6 +23,7 @@ import (
 	"os/signal"
 	"sync"
 	"syscall"
+	"time"
 
 	"github.com/samaritan-proxy/samaritan/cmd/samaritan/hotrestart"
 
@@ -94,13 +95,27 @@ func parentMain(args []string) error {
 	var restoreKill func()
 
 	// SIGTERM: what the terminate step sends to the own process
-	sigc := make(chan os.Signal, 16)
-	signal.Notify(sigc, syscall.SIGTERM)
+	// SIGWINCH is the driver's flush marker: the runtime hands pending signals over in numeric order, so once
+	// the marker (28) came through, every SIGTERM (15) raised before it has been emitted.
+	sigc := make(chan os.Signal, 64)
+	marker := make(chan struct{}, 8)
+	signal.Notify(sigc, syscall.SIGTERM, syscall.SIGWINCH)
 	go func() {
-		for range sigc {
+		for s := range sigc {
+			if s == syscall.SIGWINCH {
+				marker <- struct{}{}
+				continue
+			}
 			out.emit(pev{Ev: "call", X: "term"})
 		}
 	}()
+	flushSignals := func() {
+		syscall.Kill(os.Getpid(), syscall.SIGWINCH)
+		select {
+		case <-marker:
+		case <-time.After(2 * time.Second):
+		}
+	}
 
 	endSession := func() {
 		mu.Lock()
@@ -179,6 +194,7 @@ func parentMain(args []string) error {
 			out.emit(pev{Ev: "sync", N: c.N})
 		case "end":
 			endSession()
+			flushSignals()
 			out.emit(pev{Ev: "ended"})
 		case "quit":
 			endSession()
